@@ -1,4 +1,4 @@
-import DirectVerif.Lemmas.C12
+import DirectVerif.Lemmas.C12Ext
 /-!
 # C12 — datasets map every index to exactly one slice of one volume, reproducibly
 
@@ -207,6 +207,49 @@ theorem build_ranges_contiguous {φ : Type} [DecidableEq φ] (srt : Bool) (le : 
       · cases h
       · rw [← Except.ok.inj h]; exact ranges_contiguous _ (some sl) hnd
 
+/-- a list of contiguous ranges from 0 to `len` partitions `0 … len-1` -/
+theorem contiguous_partition {φ : Type} {vols : List (φ × Nat × Nat)} {len : Nat} (hc : Contiguous 0 vols len) (i : Nat)
+    (hi : i < len) :
+    ∃ k, (∃ hk : k < vols.length, (vols[k]).2.1 ≤ i ∧ i < (vols[k]).2.2) ∧
+      ∀ k', (∃ hk' : k' < vols.length, (vols[k']).2.1 ≤ i ∧ i < (vols[k']).2.2) → k' = k := by
+  obtain ⟨k, hk, h1, h2⟩ := contiguous_cover hc i (by omega) hi
+  refine ⟨k, ⟨hk, h1, h2⟩, ?_⟩
+  rintro k' ⟨hk', g1, g2⟩
+  exact contiguous_disjoint hc i k' k hk' hk ⟨g1, g2⟩ ⟨h1, h2⟩
+
+/-- … and therefore **every index of every dataset the `H5SliceData` constructors build lies in the range of exactly
+one volume** (no hypothesis on the arguments: repeated names, unreadable files, any filter, any listing order). -/
+theorem build_ranges_partition {φ : Type} [DecidableEq φ] (srt : Bool) (le : φ → φ → Bool) (sel : Selection φ)
+    (nOf : φ → Option Nat) (F : FilterArg) (P : Parsed φ) (h : buildH5 srt true le sel nOf F = .ok P) (i : Nat)
+    (hi : i < P.data.length) :
+    ∃ k, (∃ hk : k < P.vols.length, (P.vols[k]).2.1 ≤ i ∧ i < (P.vols[k]).2.2) ∧
+      ∀ k', (∃ hk' : k' < P.vols.length, (P.vols[k']).2.1 ≤ i ∧ i < (P.vols[k']).2.2) → k' = k :=
+  contiguous_partition (build_ranges_contiguous srt le sel nOf F P h) i hi
+
+/-- the same for **`CMRxReconDataset`** as its constructor builds it (`buildCmr`: selection with de-duplication, then
+the fold with `num_slices = a·b | a | b`) — no hypothesis on the arguments -/
+theorem cmr_build_ranges_contiguous {φ : Type} [DecidableEq φ] (srt : Bool) (le : φ → φ → Bool) (sel : Selection φ)
+    (ctx : CmrContext) (shapeOf : φ → Option (Nat × Nat)) (P : Parsed φ)
+    (h : buildCmr srt true le sel ctx shapeOf = .ok P) : Contiguous 0 P.vols P.data.length := by
+  unfold buildCmr at h
+  split at h
+  · cases h
+  · rename_i fs hfs
+    rw [← Except.ok.inj h]
+    apply ranges_contiguous
+    have e : ((fs.map fun f => (f, shapeOf f)).map fun x => (x.1, x.2.map fun ab => cmrNumSlices ctx ab.1 ab.2)) =
+        fs.map fun f => (f, (shapeOf f).map fun ab => cmrNumSlices ctx ab.1 ab.2) := by
+      rw [List.map_map]; rfl
+    rw [e, readable_map_fst]
+    exact (select_nodup srt le sel fs hfs).sublist List.filter_sublist
+
+theorem cmr_build_ranges_partition {φ : Type} [DecidableEq φ] (srt : Bool) (le : φ → φ → Bool) (sel : Selection φ)
+    (ctx : CmrContext) (shapeOf : φ → Option (Nat × Nat)) (P : Parsed φ)
+    (h : buildCmr srt true le sel ctx shapeOf = .ok P) (i : Nat) (hi : i < P.data.length) :
+    ∃ k, (∃ hk : k < P.vols.length, (P.vols[k]).2.1 ≤ i ∧ i < (P.vols[k]).2.2) ∧
+      ∀ k', (∃ hk' : k' < P.vols.length, (P.vols[k']).2.1 ≤ i ∧ i < (P.vols[k']).2.2) → k' = k :=
+  contiguous_partition (cmr_build_ranges_contiguous srt le sel ctx shapeOf P h) i hi
+
 /-- **with the listing sorted, the selected files — hence the whole index ↦ (file, slice) mapping — do
 not depend on the order in which the operating system lists the directory** -/
 theorem select_listing_invariant {φ : Type} [DecidableEq φ] (dd : Bool) (le : φ → φ → Bool)
@@ -327,6 +370,24 @@ number of entries `≤ idx` -/
 theorem cumsum_sorted (sizes : List Nat) : (cumsum sizes).Pairwise (· ≤ ·) :=
   (cumsumFrom_sorted 0 sizes).1
 
+/-- **`bisect.bisect_right` as CPython computes it (binary search) meets its documented contract** on every
+non-decreasing list: with `r` the result, all of `xs[:r]` are `≤ x` and all of `xs[r:]` are `> x` — nothing about the
+library function is assumed by the theorems below, the executed `locate` runs the binary search. -/
+theorem bisect_right_contract (xs : List Nat) (x : Int) (hs : xs.Pairwise (· ≤ ·)) :
+    bisectRightBin xs x ≤ xs.length ∧
+    ∀ i (hi : i < xs.length), (i < bisectRightBin xs x ↔ ((xs[i] : Nat) : Int) ≤ x) := by
+  rw [bisectRightBin_eq_count xs x hs]
+  exact ⟨bisectRight_le_length xs x, fun i hi => bisectRight_lt_iff xs x hs i hi⟩
+
+/-- … in particular on the cumulative sizes of any list of members -/
+theorem bisect_right_on_cumsum (sizes : List Nat) (x : Int) :
+    bisectRightBin (cumsum sizes) x = bisectRight (cumsum sizes) x :=
+  bisectRightBin_eq_count _ _ (cumsum_sorted sizes)
+
+/-- the binary search does **not** count on unsorted lists (the sortedness of `cumsum` is needed) -/
+theorem bisect_unsorted_differs : bisectRightBin [5, 1, 1] 1 ≠ ([5, 1, 1].filter fun v => decide ((v : Int) ≤ 1)).length := by
+  decide
+
 /-- **`idx ↦ (member d, local index j)`** with `j < sizes[d]`, `idx = sizes[0] + … + sizes[d-1] + j`,
 for every list of member sizes (zeros allowed) and every `0 ≤ idx < len` -/
 theorem concat_locate_spec (sizes : List Nat) (idx : Nat) (h : idx < sizes.sum) :
@@ -338,6 +399,18 @@ theorem concat_locate_unique (sizes : List Nat) (d d' j j' : Nat) (hd : d < size
     (hd' : d' < sizes.length) (hj : j < sizes[d]) (hj' : j' < sizes[d'])
     (h : (sizes.take d).sum + j = (sizes.take d').sum + j') : d = d' ∧ j = j' :=
   Dataset.concat_locate_unique sizes d d' j j' hd hd' hj hj' h
+
+/-- **`ConcatDataset[idx]` is entry `idx` of the flat enumeration** `[(d, j) for d, m in enumerate(members) for j in
+range(len(m))]` of the members' items (members of length 0 allowed, the same object may occur several times) -/
+theorem concat_is_flat_enumeration (sizes : List Nat) (idx : Nat) (h : idx < sizes.sum) :
+    ∃ p, locate sizes idx = .ok p ∧ (flatPairs sizes)[idx]? = some p := by
+  obtain ⟨d, j, h1, hd, hj, e⟩ := Dataset.concat_locate_spec sizes idx h
+  refine ⟨(d, j), h1, ?_⟩
+  have := flatPairsFrom_getElem? 0 sizes d j hd hj
+  rw [e]; simpa [flatPairs] using this
+
+theorem flat_enumeration_length (sizes : List Nat) : (flatPairs sizes).length = sizes.sum :=
+  flatPairsFrom_length 0 sizes
 
 /-- **negative indices** `-len ≤ idx < 0` address `len + idx` -/
 theorem concat_negative (sizes : List Nat) (idx : Int) (h0 : idx < 0) (h1 : -(sizes.sum : Int) ≤ idx) :
@@ -355,8 +428,8 @@ theorem concat_out_of_range (sizes : List Nat) (idx : Int) :
 plumbing table is all-true (it is for the current tree: `Bridge.C12.fake_table_ok`), for every RNG
 implementation, render function, coil count, per-sample seed and slice. -/
 theorem item_deterministic {G V O : Type} (R : Rng G V) (t : SeedTable) (ht : t.allTrue = true)
-    (render : V × Option V → Nat → O) (coils seed sliceNo : Nat) (g g' : G) :
-    (fakeItem R t render coils seed sliceNo g).1 = (fakeItem R t render coils seed sliceNo g').1 := by
+    (render : V × Option V → Nat → O) (a : BlobArgs) (coils seed sliceNo : Nat) (g g' : G) :
+    (fakeItem R t render a coils seed sliceNo g).1 = (fakeItem R t render a coils seed sliceNo g').1 := by
   obtain ⟨a, b, c, d, e, f⟩ := t
   simp only [SeedTable.allTrue, Bool.and_eq_true] at ht
   obtain ⟨⟨⟨⟨⟨rfl, rfl⟩, rfl⟩, rfl⟩, rfl⟩, rfl⟩ := ht
@@ -367,30 +440,30 @@ theorem item_deterministic {G V O : Type} (R : Rng G V) (t : SeedTable) (ht : t.
 count, per-sample seed, slice) — interleaved with arbitrary perturbations of the global stream; the state
 the stream is left in.  Dataset objects share nothing else (`Bridge.C12.shared_state_table_ok`). -/
 def runHistory {G V O : Type} (R : Rng G V) (t : SeedTable) (render : V × Option V → Nat → O) :
-    G → List ((Nat × Nat × Nat) × (G → G)) → G
+    G → List ((BlobArgs × Nat × Nat × Nat) × (G → G)) → G
   | g, [] => g
-  | g, ((coils, seed, sl), perturb) :: rest =>
-    runHistory R t render (perturb (fakeItem R t render coils seed sl g).2) rest
+  | g, ((a, coils, seed, sl), perturb) :: rest =>
+    runHistory R t render (perturb (fakeItem R t render a coils seed sl g).2) rest
 
 /-- **… nor on the access history**: after any two histories (accesses to any objects, in any order, with
 repetitions), from any two initial states, loading the same `(seed, slice)` gives the same item (same
 index twice, permuted orders, another identically constructed dataset, other datasets accessed in
 between). -/
 theorem item_history_independent {G V O : Type} (R : Rng G V) (t : SeedTable) (ht : t.allTrue = true)
-    (render : V × Option V → Nat → O) (coils seed sliceNo : Nat) (g g' : G)
-    (hist hist' : List ((Nat × Nat × Nat) × (G → G))) :
-    (fakeItem R t render coils seed sliceNo (runHistory R t render g hist)).1 =
-      (fakeItem R t render coils seed sliceNo (runHistory R t render g' hist')).1 :=
-  item_deterministic R t ht render coils seed sliceNo _ _
+    (render : V × Option V → Nat → O) (a : BlobArgs) (coils seed sliceNo : Nat) (g g' : G)
+    (hist hist' : List ((BlobArgs × Nat × Nat × Nat) × (G → G))) :
+    (fakeItem R t render a coils seed sliceNo (runHistory R t render g hist)).1 =
+      (fakeItem R t render a coils seed sliceNo (runHistory R t render g' hist')).1 :=
+  item_deterministic R t ht render a coils seed sliceNo _ _
 
 /-- regression examples: the pinned tree (seed not handed to `make_blobs`; `if seed:`) returned
 items that depend on the global stream -/
 theorem fake_pinned_violates :
-    (fakeItem toyRng fakeTablePinned (fun d _ => d) 1 5 0 0).1 ≠
-      (fakeItem toyRng fakeTablePinned (fun d _ => d) 1 5 0 1).1 := by decide
+    (fakeItem toyRng fakeTablePinned (fun d _ => d) ⟨1, 2, 18⟩ 1 5 0 0).1 ≠
+      (fakeItem toyRng fakeTablePinned (fun d _ => d) ⟨1, 2, 18⟩ 1 5 0 1).1 := by decide
 theorem sens_truthy_seed_violates :
-    (fakeItem toyRng ⟨true, true, true, true, true, false⟩ (fun d _ => d) 2 0 0 0).1 ≠
-      (fakeItem toyRng ⟨true, true, true, true, true, false⟩ (fun d _ => d) 2 0 0 1).1 := by decide
+    (fakeItem toyRng ⟨true, true, true, true, true, false⟩ (fun d _ => d) ⟨2, 2, 18⟩ 2 0 0 0).1 ≠
+      (fakeItem toyRng ⟨true, true, true, true, true, false⟩ (fun d _ => d) ⟨2, 2, 18⟩ 2 0 0 1).1 := by decide
 
 /-- **`SheppLoganDataset[i]` does not depend on the state of the global RNG** whenever its seed
 plumbing table is all-true (it is for the current tree: `Bridge.C12.shepp_table_ok`): the sensitivity
@@ -425,6 +498,175 @@ theorem shepp_pinned_violates :
     (sheppItem toyRng sheppTablePinned id 1 7 true 4 0).1 ≠
       (sheppItem toyRng sheppTablePinned id 1 7 true 4 1).1 := by decide
 
+/-- **an epoch's items do not depend on the schedule**: whatever state the global stream is in when position `p` of the
+epoch is served (`pre p` — another worker process with its forked copy of the stream, a later epoch, other datasets
+served in between, a pickled / deep-copied dataset object in another process), the items are the same. -/
+theorem epoch_schedule_independent {G V O : Type} (R : Rng G V) (t : SeedTable) (ht : t.allTrue = true)
+    (render : V × Option V → Nat → O) (epoch : List (BlobArgs × Nat × Nat × Nat)) (pre pre' : Nat → G) :
+    (epoch.zipIdx.map fun (x, p) => (fakeItem R t render x.1 x.2.1 x.2.2.1 x.2.2.2 (pre p)).1) =
+      (epoch.zipIdx.map fun (x, p) => (fakeItem R t render x.1 x.2.1 x.2.2.1 x.2.2.2 (pre' p)).1) := by
+  apply List.map_congr_left
+  rintro ⟨x, p⟩ _
+  exact item_deterministic R t ht render _ _ _ _ _ _
+
+/-- accesses to `FakeMRIBlobsDataset` and `SheppLoganDataset` objects and arbitrary other uses of the global stream,
+in any order (`SheppLoganDataset` with several coils *seeds the global stream* as a side effect) -/
+inductive Access (G : Type) where
+  | fake (a : BlobArgs) (coils seed slice : Nat)
+  | shepp (coils seed : Nat) (zero : Bool) (k : Nat)
+  | perturb (f : G → G)
+
+def runMixed {G V : Type} (R : Rng G V) (ft : SeedTable) (st : SheppTable) : G → List (Access G) → G
+  | g, [] => g
+  | g, .fake a coils seed _ :: rest => runMixed R ft st (fakeDraws R ft a coils seed g).2 rest
+  | g, .shepp coils seed zero k :: rest => runMixed R ft st (sheppDraws R st coils seed zero k g).2 rest
+  | g, .perturb f :: rest => runMixed R ft st (f g) rest
+
+/-- **both kinds of synthetic items are independent of any mixed access history** -/
+theorem mixed_history_independent {G V O O' : Type} (R : Rng G V) (ft : SeedTable) (st : SheppTable)
+    (hft : ft.allTrue = true) (hst : st.allTrue = true) (render : V × Option V → Nat → O)
+    (render' : Option V × Option V → O') (g g' : G) (hist hist' : List (Access G)) :
+    (∀ a coils seed sl, (fakeItem R ft render a coils seed sl (runMixed R ft st g hist)).1 =
+        (fakeItem R ft render a coils seed sl (runMixed R ft st g' hist')).1) ∧
+    (∀ coils seed zero k, (sheppItem R st render' coils seed zero k (runMixed R ft st g hist)).1 =
+        (sheppItem R st render' coils seed zero k (runMixed R ft st g' hist')).1) :=
+  ⟨fun a coils seed sl => item_deterministic R ft hft render a coils seed sl _ _,
+   fun coils seed zero k => shepp_item_deterministic R st hst render' coils seed zero k _ _⟩
+
+/-! ## the request sequence behind a synthetic item -/
+
+/-- the per-centre sample counts of `make_blobs` add up to `n_samples` (every requested sample is drawn once) -/
+theorem blob_counts_sum (n k : Nat) (hk : 0 < k) : (blobCounts n k).sum = n := blobCounts_sum n k hk
+
+/-- `make_blobs` makes `centers + 2` requests to its generator: one for the centres, one per centre, the shuffle -/
+theorem blob_requests_length (a : BlobArgs) : (blobRequests a).length = a.centers + 2 := by
+  simp [blobRequests, blobCounts]
+
+/-- with a seed handed down (current plumbing), every request behind `FakeMRIBlobsDataset[i]` goes to a stream that was
+seeded with the item's seed **inside the same access**: the blob requests to a private stream `[seed s, …]`, the
+sensitivity offset to the global stream right after `np.random.seed(s)` — no request reaches the state `init` the
+global stream was in before the access. -/
+theorem fake_requests_all_seeded (a : BlobArgs) (coils seed : Nat) (g : List GOp) :
+    (fakeDraws symRng fakeTableCurrent a coils seed g).1.1 = [GOp.seed seed] ++ blobRequests a ∧
+    (fakeDraws symRng fakeTableCurrent a coils seed g).1.2 =
+      (if coils = 1 then none else some [GOp.seed seed, GOp.uniform]) := by
+  by_cases hc : coils = 1 <;> simp [fakeDraws, simSens, fakeTableCurrent, symRng, hc]
+
+theorem shepp_requests_all_seeded (coils seed : Nat) (zero : Bool) (k : Nat) (g : List GOp) :
+    (sheppDraws symRng sheppTableCurrent coils seed zero k g).1.1 =
+      (if coils = 1 then none else some [GOp.seed seed, GOp.uniform]) ∧
+    (sheppDraws symRng sheppTableCurrent coils seed zero k g).1.2 =
+      (if zero then some [GOp.seed seed, GOp.randn k] else none) := by
+  by_cases hc : coils = 1 <;> cases zero <;> simp [sheppDraws, simSens, sheppTableCurrent, symRng, hc]
+
+/-! ## index structure of the synthetic datasets -/
+
+/-- **`FakeMRIBlobsDataset`: the per-volume ranges are contiguous from 0 and cover `0 … len-1`** for distinct names … -/
+theorem fake_ranges_contiguous {φ : Type} [DecidableEq φ] (names : List φ) (seeds : List Nat) (nz : Nat)
+    (hnd : names.Nodup) (hlen : names.length ≤ seeds.length) :
+    Contiguous 0 (fakeBuild names seeds nz).vols (fakeBuild names seeds nz).data.length := by
+  have hr : ((readable (names.map fun f => (f, some nz))).map (·.1)) = names := by
+    rw [readable_all_some, List.map_map]; exact List.map_id' _
+  have hc := ranges_contiguous (names.map fun f => (f, some nz)) none (by rw [hr]; exact hnd)
+  have hl : (parseFilenames (names.map fun f => (f, some nz)) none).data.length = (fakeBuild names seeds nz).data.length := by
+    rw [parse_data_spec, readable_all_some, dataOf_none_const]
+    simp only [fakeBuild, flatMap_range_length, List.length_zip]
+    congr 1; omega
+  rw [← hl]; exact hc
+
+/-- … the names the dataset generates itself (`base00001, base00002, …`, whenever the number of given names differs
+from `sample_size`) **are** distinct, for any injective numbering … -/
+theorem fake_renamed_names_nodup {φ : Type} (given : List φ) (n : Nat) (mk : φ → Nat → φ)
+    (hmk : ∀ b k k', mk b k = mk b k' → k = k') (hne : given.length ≠ n) (names : List φ)
+    (h : fakeNames given n mk = .ok names) : names.Nodup ∧ names.length = n := by
+  unfold fakeNames at h
+  simp only [hne, ne_eq, not_false_eq_true, if_true] at h
+  cases given with
+  | nil => cases h
+  | cons b r =>
+    simp only at h
+    rw [← Except.ok.inj h]
+    refine ⟨?_, by simp⟩
+    apply nodup_map_of_inj _ _ _ List.nodup_range
+    intro x y hxy
+    have := hmk b _ _ hxy
+    omega
+
+/-- … and **item `k·nz + s` is slice `s` of volume `k`, generated from volume `k`'s own seed** -/
+theorem fake_item_index {φ : Type} [DecidableEq φ] (names : List φ) (seeds : List Nat) (nz k s : Nat)
+    (hk : k < names.length) (hk' : k < seeds.length) (hs : s < nz) :
+    fakeIndex (fakeBuild names seeds nz) ((k * nz + s : Nat) : Int) = .ok (names[k], s, seeds[k]) := by
+  have hlen : k * nz + s < (names.zip seeds).length * nz := by
+    have h1 : k < (names.zip seeds).length := by simp [List.length_zip]; omega
+    calc k * nz + s < k * nz + nz := by omega
+      _ = (k + 1) * nz := by rw [Nat.succ_mul]
+      _ ≤ (names.zip seeds).length * nz := Nat.mul_le_mul_right nz h1
+  have hnz : 0 < nz := by omega
+  have hget := flatMap_range_getElem? (names.zip seeds) nz (fun (x : φ × Nat) s => (x.1, s, x.2)) (k * nz + s) hlen
+  have e1 : (k * nz + s) / nz = k := by
+    rw [Nat.mul_comm, Nat.mul_add_div hnz, Nat.div_eq_of_lt hs]; rfl
+  have e2 : (k * nz + s) % nz = s := by
+    rw [Nat.mul_comm, Nat.mul_add_mod, Nat.mod_eq_of_lt hs]
+  rw [e1, e2] at hget
+  have hz : (names.zip seeds)[k]? = some (names[k], seeds[k]) := by
+    rw [List.getElem?_eq_getElem (by simp [List.length_zip]; omega)]; simp
+  rw [hz] at hget
+  unfold fakeIndex pyIndex
+  have h0 : ¬ (((k * nz + s : Nat) : Int) < 0) := by omega
+  simp only [h0, if_false, Int.toNat_natCast]
+  have hd : (fakeBuild names seeds nz).data =
+      (names.zip seeds).flatMap fun x => (List.range nz).map fun s => (x.1, s, x.2) := rfl
+  rw [hd, hget]; rfl
+
+/-- observation (outside the quantifier: names are not quantified over): names given explicitly, one per sample, are
+used verbatim — a repeated name keeps only its last range, as it did for `H5SliceData` before de-duplication -/
+theorem fake_duplicate_names_observation :
+    (fakeBuild [(1 : Nat), 1] [10, 11] 3).vols = [(1, 3, 6)] ∧ (fakeBuild [(1 : Nat), 1] [10, 11] 3).data.length = 6 := by
+  decide
+
+/-- **`SheppLoganDataset[i]` for `0 ≤ i < nz`**: renders slice `i`, with seed `seed[i]`, and reports `slice_no = i` -/
+theorem shepp_index_spec (nz i : Nat) (h : i < nz) : sheppIndex nz (i : Int) = .ok (i, i, (i : Int)) := by
+  unfold sheppIndex pyIndex
+  have h0 : ¬ ((i : Int) < 0) := by omega
+  have hm : Int.fmod (i : Int) (nz : Int) = (i : Int) := by
+    rw [Int.fmod_eq_emod_of_nonneg _ (by omega)]
+    exact Int.emod_eq_of_lt (by omega) (by omega)
+  simp [h0, h, hm]
+
+/-- indices outside `-nz … nz-1` are rejected (by `self.seed[idx]`) -/
+theorem shepp_index_out_of_range (nz : Nat) (idx : Int) (h : (nz : Int) ≤ idx ∨ idx < -(nz : Int)) :
+    sheppIndex nz idx = .error .indexError := by
+  unfold sheppIndex pyIndex
+  rcases h with h | h
+  · have h0 : ¬ (idx < 0) := by omega
+    have : ¬ (idx.toNat < nz) := by omega
+    simp [h0, this]
+  · have h0 : idx < 0 := by omega
+    have : idx + (nz : Int) < 0 := by omega
+    simp [h0, this]
+
+/-- what holds for negative indices `-nz ≤ idx < 0` on the current tree: the **data** is that of slice `nz + idx`
+(rendered slice and seed agree), the reported `slice_no` is `idx` as given … -/
+theorem shepp_index_negative_partial (nz : Nat) (idx : Int) (h0 : idx < 0) (h1 : -(nz : Int) ≤ idx) :
+    sheppIndex nz idx = .ok ((idx + nz).toNat, (idx + nz).toNat, idx) := by
+  unfold sheppIndex pyIndex
+  have h2 : ¬ (idx + ((List.range nz).length : Int) < 0) := by simp; omega
+  have hm : Int.fmod idx (nz : Int) = idx + nz := by
+    rw [Int.fmod_eq_emod_of_nonneg _ (by omega), ← Int.add_emod_right]
+    exact Int.emod_eq_of_lt (by omega) (by omega)
+  have hl : (idx + (nz : Int)).toNat < nz := by omega
+  have h3 : ¬ (idx + (nz : Int) < 0) := by omega
+  simp [h0, h3, hm, hl]
+
+/-- … **so for a negative index the reported `slice_no` is not the slice the item designates**: `ds[-1]` of a 4-slice
+phantom is slice 3 labelled `slice_no = -1` (full statement that fails on the current tree:
+`∀ idx, sheppIndex nz idx = .ok (s, k, r) → r = s`). -/
+theorem shepp_negative_index_current_violates :
+    sheppIndex 4 (-1) = .ok (3, 3, -1) ∧ ¬ (∀ idx s k r, sheppIndex 4 idx = .ok (s, k, r) → r = (s : Int)) := by
+  refine ⟨by rfl, fun h => ?_⟩
+  have := h (-1) 3 3 (-1) (by rfl)
+  omega
+
 /-! ## non-vacuity: the hypotheses are met by concrete instances -/
 
 private def exFiles : List (Nat × Option Nat) := [(1, some 3), (2, none), (3, some 1), (4, some 5)]
@@ -453,8 +695,22 @@ example : locate [2, 0, 3] 4 = .ok (2, 2) := by rfl
 example : locate [2, 0, 3] (-1) = .ok (2, 2) := by rfl
 example : locate [2, 0, 3] 5 = .error .indexError := by rfl
 example : locate [2, 0, 3] (-6) = .error .valueError := by rfl
+example : bisectRightBin (cumsum [2, 0, 3]) 2 = 2 := by decide
+example : (cumsum [2, 0, 3]).Pairwise (· ≤ ·) := by decide
+example : flatPairs [2, 0, 3] = [(0, 0), (0, 1), (2, 0), (2, 1), (2, 2)] := by decide
+example : buildCmr true true (fun a b => decide (a ≤ b)) ⟨[(2 : Nat), 1], none, none, false, false, fun _ => true⟩ .time
+    (fun f => if f = 1 then some (2, 3) else none) = .ok ⟨[(1, 0), (1, 1), (1, 2)], [(1, 0, 3)], 3⟩ := by rfl
+example : blobCounts 30 4 = [8, 8, 7, 7] := by decide
+example : blobRequests ⟨4, 3, 30⟩ = [.uniformN 12, .normalN 24, .normalN 24, .normalN 21, .normalN 21, .shuffleN 30] := by decide
+example : blobArgs [3, 6, 5] 4 0 = ⟨4, 3, 30⟩ := by decide
+example : fakeNames [(7 : Nat)] 2 (fun b k => b * 100000 + k) = .ok [700001, 700002] := by rfl
+example : (fakeBuild [(1 : Nat), 2] [10, 11] 3).vols = [(1, 0, 3), (2, 3, 6)] := by decide
+example : fakeIndex (fakeBuild [(1 : Nat), 2] [10, 11] 3) (-1) = .ok (2, 2, 11) := by rfl
+example : [(1 : Nat), 2].Nodup ∧ (1 : Nat) < [(1 : Nat), 2].length ∧ (2 : Nat) < 3 := by decide
+example : sheppIndex 4 2 = .ok (2, 2, 2) := by rfl
+example : sheppIndex 4 4 = .error .indexError := by rfl
 example : fakeTableCurrent.allTrue = true := by decide
-example : (fakeItem toyRng fakeTableCurrent (fun d _ => d) 3 5 0 0).1 = ((6000, some 6000), 0).1 := by decide
+example : (fakeItem toyRng fakeTableCurrent (fun d _ => d) ⟨3, 2, 18⟩ 3 5 0 0).1 = ((6000, some 6000), 0).1 := by decide
 example : sheppTableCurrent.allTrue = true := by decide
 example : (sheppItem toyRng sheppTableCurrent id 1 7 true 4 0).1 = (sheppItem toyRng sheppTableCurrent id 1 7 true 4 1).1 := by decide
 example : (sheppItem toyRng sheppTableCurrent id 2 7 true 4 0).1 = (some 8000, some 8000) := by decide
